@@ -4,8 +4,8 @@ Import ListNotations.
 From Ont Require Import Lib.AList Gen.GovConsts Model.Gov Model.GovSpec Proofs.GovInv Proofs.GovAcct.
 Local Open Scope N_scope.
 
-Ltac simp_state := cbn [s_view s_vheight s_pool s_infos s_stakes s_pens s_ont s_black s_maxauth s_promise s_par
-  set_view set_pool set_infos set_stakes set_pens set_ont set_black set_maxauth set_promise] in *.
+Ltac simp_state := cbn [s_view s_vheight s_pool s_infos s_stakes s_pens s_ont s_black s_maxauth s_promise s_par s_prev
+  set_prev set_view set_pool set_infos set_stakes set_pens set_ont set_black set_maxauth set_promise] in *.
 
 (** ** UnRegisterCandidate / RejectCandidate *)
 Lemma release_init_inv2 : forall s k p, inv2 s -> pget k (s_pool s) = Some p ->
